@@ -29,6 +29,8 @@ def snapshot(v, memo=None):
             n.entries[k] = [snapshot(x, memo), p]
         if v.abstract is not None:
             n.abstract = v.abstract.copy()
+        if v.sym_items is not None:
+            n.sym_items = [[snapshot(k, memo), snapshot(x, memo)] for k, x in v.sym_items]
         return n
     if isinstance(v, ListV):
         if v.oid in memo:
